@@ -243,7 +243,11 @@ def call_model(c, t, at, edge):
                 call_closure(c, path, ct, [R(el), R(el)], at, edge, site)
         return S({})
     # ---------------------------------------------------------------- iterator plumbing (items are modelled at `next`)
-    if short in ("into_iter", "iter", "iter_mut", "enumerate", "rev", "copied", "cloned", "by_ref", "take", "skip", "zip", "chain", "map", "filter", "peekable"):
+    if short in ("into_iter", "iter", "iter_mut", "enumerate", "rev", "copied", "cloned", "by_ref", "take", "skip", "zip", "chain", "map", "filter", "peekable",
+                 "flat_map", "filter_map", "take_while", "skip_while", "fuse", "inspect"):
+        sq = seq_of(c, t, at, edge, site)
+        if sq is not None:
+            return sq          # an iterator is abstracted by the sequence it yields: (how many items, what an item looks like)
         if short == "map" and len(args) == 2:
             path, ct = closure_of(c, args[1])
             if path:
@@ -300,6 +304,12 @@ def call_model(c, t, at, edge):
         init = av(args[1])
         if path:
             el = elem_of_iter(c, args[0], at, edge)
+            ps = positional_fold_bound(c, path, args[0], init, el, at, edge)
+            if ps is not None:
+                # sum of d_i * 2^(w*i) over distinct positions i < L with d_i < 2^w: every partial sum is below 2^(w*L)
+                acc = I(0, ps)
+                call_closure(c, path, ct, [acc, el], at, edge, site)
+                return acc
             acc = init
             for _ in range(3):
                 r = call_closure(c, path, ct, [acc, el], at, edge, site)
@@ -569,6 +579,111 @@ def elem_of_type(c, t):
     return TOP
 
 
+def seq_of(c, t, at, edge, site, depth=0):
+    """V(number of items, item) for an iterator expression, or None when nothing is known: ranges, collections through
+    iter / into_iter, copied / cloned / rev / by_ref, enumerate, zip, take / skip, map / filter / flat_map with the closure
+    applied to the abstract item (so obligations inside the closures are met with the right argument)"""
+    if depth > 12:
+        return None
+    x = t
+    while x[0] in ("ref", "deref"):
+        x = x[2] if x[0] == "ref" else x[1]
+    if x[0] == "agg" and isinstance(x[2], str) and x[2].startswith("std::ops::Range::") and len(x[3]) == 2:
+        lo, hi = c.av(x[3][0], at, edge), c.av(x[3][1], at, edge)
+        if lo[0] == "b" or hi[0] == "b":
+            return BOT
+        if lo[0] == "i" and hi[0] == "i":
+            return V(I(max(0, hi[1] - lo[2]), max(0, hi[2] - lo[1])), I(lo[1], max(lo[1], hi[2] - 1)), None)
+        return None
+    if x[0] != "call" or not isinstance(x[1], str) or not x[2]:
+        a = c.av(x, at, edge)
+        a = a[1] if a[0] == "r" else a
+        return a if a[0] in ("v", "b") else None
+    short = x[1].split("::")[-1]
+    a0 = x[2][0]
+
+    def sub(y):
+        return seq_of(c, y, at, edge, site, depth + 1)
+    if short in ("iter", "iter_mut", "into_iter"):
+        s0 = sub(a0) if (a0[0] == "call" or (a0[0] in ("ref", "deref") and False)) else None
+        if s0 is not None and a0[0] == "call" and a0[1].split("::")[-1] not in ("deref", "as_slice", "get_vertices_vec"):
+            return s0
+        b = c.av(a0, at, edge)
+        byref = short != "into_iter" or b[0] == "r"
+        b = b[1] if b[0] == "r" else b
+        if b[0] == "b":
+            return BOT
+        if b[0] == "v":
+            return V(b[1], R(b[2]) if byref else b[2], None)
+        return None
+    if short in ("rev", "by_ref", "peekable", "fuse"):
+        return sub(a0)
+    if short in ("copied", "cloned"):
+        s0 = sub(a0)
+        if s0 is None or s0[0] != "v":
+            return s0
+        return V(s0[1], deref_av(s0[2]), None)
+    if short == "enumerate":
+        s0 = sub(a0)
+        if s0 is None or s0[0] != "v":
+            return s0
+        hi = s0[1][2] if s0[1][0] == "i" else MAXLEN
+        return V(s0[1], S({"0": I(0, max(0, hi - 1)), "1": s0[2]}), None)
+    if short == "zip" and len(x[2]) == 2:
+        s0, s1 = sub(a0), sub(x[2][1])
+        if s0 is None or s1 is None:
+            return None
+        if s0[0] == "b" or s1[0] == "b":
+            return BOT
+        l0, l1 = s0[1], s1[1]
+        ln = I(min(l0[1], l1[1]), min(l0[2], l1[2])) if l0[0] == "i" and l1[0] == "i" else I(0, MAXLEN)
+        return V(ln, S({"0": s0[2], "1": s1[2]}), None)
+    if short in ("take", "skip") and len(x[2]) == 2:
+        s0 = sub(a0)
+        n = c.av(x[2][1], at, edge)
+        if s0 is None or s0[0] != "v":
+            return s0
+        if s0[1][0] == "i" and n[0] == "i":
+            ln = I(min(s0[1][1], n[1]), min(s0[1][2], n[2])) if short == "take" else I(max(0, s0[1][1] - n[2]), max(0, s0[1][2] - n[1]))
+            return V(ln, s0[2], None)
+        return V(I(0, s0[1][2] if s0[1][0] == "i" else MAXLEN), s0[2], None)
+    if short in ("map", "filter", "flat_map", "filter_map", "take_while", "skip_while", "inspect") and len(x[2]) == 2:
+        s0 = sub(a0)
+        path, ct = closure_of(c, x[2][1])
+        if s0 is None:
+            return None
+        if s0[0] == "b":
+            return BOT
+        if not path:
+            # a function item (`.map(to_lon_lat)`): apply its summary
+            fr = x[2][1]
+            if fr[0] == "fnref" and fr[1] in c.facts.fns and short == "map":
+                r = c.eng.summary(fr[1], (s0[2],), caller=(c.path, c.args, site))
+                if c.final and c.is_live() and at is not None:
+                    c.note_callee(fr[1], (s0[2],))
+                return V(s0[1], r, None)
+            return V(I(0, s0[1][2] if s0[1][0] == "i" else MAXLEN), TOP, None) if short != "map" else V(s0[1], TOP, None)
+        arg = s0[2] if short in ("map", "flat_map", "filter_map") else R(s0[2])
+        r = call_closure(c, path, ct, [arg], at, edge, site)
+        hi = s0[1][2] if s0[1][0] == "i" else MAXLEN
+        if short in ("map", "inspect"):
+            return V(s0[1], r if short == "map" else s0[2], None)
+        if short in ("filter", "take_while", "skip_while"):
+            return V(I(0, hi), s0[2], None)
+        if short == "filter_map":
+            inner = variant_payload(r, "Some") if r[0] == "e" else None
+            return V(I(0, hi), inner if inner is not None else TOP, None)
+        if short == "flat_map":
+            rr = r[1] if r[0] == "r" else r
+            if rr[0] == "b":
+                return BOT
+            if rr[0] == "v":
+                h2 = rr[1][2] if rr[1][0] == "i" else MAXLEN
+                return V(I(0, min(MAXLEN, hi * h2)), rr[2], None)
+            return V(I(0, MAXLEN), TOP, None)
+    return None
+
+
 def elem_of_iter(c, src, at, edge):
     """abstract element produced by an iterator expression (by reference for iter())"""
     x = src
@@ -582,7 +697,8 @@ def elem_of_iter(c, src, at, edge):
         if n in ("copied", "cloned"):
             byref = False
         if n not in ("iter", "iter_mut", "into_iter", "copied", "cloned", "rev", "enumerate", "by_ref"):
-            return TOP
+            sq = seq_of(c, src, at, edge, None)
+            return sq[2] if sq is not None and sq[0] == "v" else (BOT if sq is not None and sq[0] == "b" else TOP)
         x = x[2][0]
     while x[0] in ("ref", "deref"):
         if x[0] == "ref":
@@ -609,6 +725,65 @@ def default_value(c, t, at, edge, site):
                 c.note_callee(path, ())
             return r
     return top_of_type(ty, c.facts)
+
+
+def positional_fold_bound(c, cpath, src, init, el, at, edge):
+    """bound 2^(w*L) - 1 when `src.fold(0, |acc, (i, d)| acc + d * (1 << (w*i)))` runs over enumerate() of a collection of at
+    most L digits below 2^w (any order of traversal, each position once); else None"""
+    from .terms import fn_terms as _ft, const_int as _ci, strip_site as _ss
+    if not (init[0] == "i" and init[1] == init[2] == 0):
+        return None
+    # the traversal: (rev / copied / ...)* enumerate (iter) collection
+    x, names = src, []
+    for _ in range(10):
+        while x[0] in ("ref", "deref"):
+            x = x[2] if x[0] == "ref" else x[1]
+        if x[0] == "call" and isinstance(x[1], str) and x[2] and x[1].split("::")[-1] in ("rev", "enumerate", "iter", "into_iter", "copied", "cloned", "by_ref"):
+            names.append(x[1].split("::")[-1])
+            x = x[2][0]
+            continue
+        break
+    if names.count("enumerate") != 1 or any(n in ("iter", "into_iter") for n in names[:names.index("enumerate")]):
+        return None
+    bav = c.av(x, at, edge)
+    bav = bav[1] if bav[0] == "r" else bav
+    if bav[0] != "v" or bav[1][0] != "i" or bav[2][0] != "i" or bav[2][1] < 0:
+        return None
+    L = bav[1][2]
+    fc = _ft(c.facts, cpath)
+    rbs = fc.return_blocks()
+    if len(rbs) != 1:
+        return None
+    t = fc.return_term(rbs[0])
+    if t[0] == "field" and str(t[2]) == "0" and t[1][0] == "bin":
+        t = ("bin", t[1][1].replace("WithOverflow", ""), t[1][2], t[1][3])
+    if not (t[0] == "bin" and t[1] in ("Add", "AddWithOverflow") and t[2] == ("param", 2)):
+        return None
+    m = t[3]
+    if m[0] == "field" and str(m[2]) == "0" and m[1][0] == "bin":
+        m = ("bin", m[1][1].replace("WithOverflow", ""), m[1][2], m[1][3])
+    if not (m[0] == "bin" and m[1] in ("Mul", "MulWithOverflow")):
+        return None
+    d, pw = m[2], m[3]
+    if not (pw[0] == "bin" and pw[1] == "Shl"):
+        d, pw = pw, d
+    if not (pw[0] == "bin" and pw[1] == "Shl" and _ci(pw[2]) == 1):
+        return None
+    from .query import linear as _lin
+    co, k0 = _lin(pw[3], through_casts=True)
+    idx = _ss(("field", ("param", 3), 0))
+    co = {a: v for a, v in co.items() if v != 0}
+    if k0 != 0 or list(co) != [idx] or co[idx] <= 0:
+        return None
+    w = co[idx]
+    dmax = bav[2][2]
+    # d must be the digit of the same item: (param3.1) possibly dereferenced / cast
+    dd = d
+    while dd[0] in ("cast", "deref", "ref"):
+        dd = dd[2] if dd[0] in ("cast", "ref") else dd[1]
+    if _ss(dd) != _ss(("field", ("param", 3), 1)) or dmax > (1 << w) - 1 or w * L > 200:
+        return None
+    return (1 << (w * L)) - 1
 
 
 def static_value(c, static_path, via):
